@@ -495,8 +495,9 @@ def genScript (seed : UInt64) (len : Nat) : List String × UInt64 := Id.run do
   let (k0, r0) := pick rng 4
   rng := r0
   let first := match k0 with | 0 => "lend ro" | 1 => "lend rw ro" | _ => "lend rw"
-  s := emit s first; out := first :: out
+  st := emit st first; out := first :: out
   for _ in List.range len do
+    let s := st.1
     let live := liveCopies s
     let (r, rng1) := pick rng 100
     rng := rng1
@@ -515,19 +516,19 @@ def genScript (seed : UInt64) (len : Nat) : List String × UInt64 := Id.run do
       else if r < 68 then s!"getro h{h} c{c}"
       else if r < 76 then s!"set h{h} c{c} {z}"
       else s!"derive h{h} c{c} {if z % 4 == 0 then "ro" else "rw"}"
-    s := emit s line; out := line :: out
+    st := emit st line; out := line :: out
   -- return from every call, then use everything that was stashed, also from inside a later call
-  for _ in List.range s.frames.length do
-    s := emit s "end"; out := "end" :: out
-  for (h, c) in (liveCopies s).take 12 do
+  for _ in List.range st.1.frames.length do
+    st := emit st "end"; out := "end" :: out
+  for (h, c) in (liveCopies st.1).take 12 do
     let (z, rng4) := pick rng 3
     rng := rng4
     let l := match z with | 0 => s!"set h{h} c{c} 7" | 1 => s!"getro h{h} c{c}" | _ => s!"get h{h} c{c}"
-    s := emit s l; out := l :: out
-  s := emit s "lend rw"; out := "lend rw" :: out
-  for (h, c) in (liveCopies s).take 6 do
+    st := emit st l; out := l :: out
+  st := emit st "lend rw"; out := "lend rw" :: out
+  for (h, c) in (liveCopies st.1).take 6 do
     let l := s!"get h{h} c{c}"
-    s := emit s l; out := l :: out
+    st := emit st l; out := l :: out
   out := "end" :: out
   return (out.reverse, rng)
 
